@@ -236,7 +236,11 @@ func diffTraces(base, got []string) (key, detail string) {
 	}
 	step := func(pfx, name string) bool {
 		if strings.HasPrefix(b, pfx) || strings.HasPrefix(g, pfx) {
-			key = name + ":" + st(find(base, b, pfx), pfx) + "->" + st(find(got, g, pfx), pfx)
+			from, to := st(find(base, b, pfx), pfx), st(find(got, g, pfx), pfx)
+			key = name + ":" + from + "->" + to
+			if to == "not-compiled" { // whatever the baseline does at this step, the cached code is gone
+				key = name + ":not-compiled"
+			}
 			return true
 		}
 		return false
@@ -543,13 +547,30 @@ func tuples() [][]string {
 	return out
 }
 
-func enumScenarios(cache string, thorough bool) []scenario {
+// scenario levels: 0 quick; 1 thorough; 2 thorough, plus for triples every order of compilation that differs
+// from the order of creation (programs flagged Order).
+func scenLevel(p *program, thorough bool) int {
+	switch {
+	case !thorough:
+		return 0
+	case p.Order:
+		return 2
+	}
+	return 1
+}
+
+var allModes = []string{"seq", "inter", "inter-rev", "inter-021", "inter-102", "inter-120", "inter-201"}
+
+func enumScenarios(cache string, level int) []scenario {
+	thorough := level > 0
 	var out []scenario
 	for _, life := range lives {
 		for _, t := range tuples() {
-			modes := []string{"seq", "inter", "inter-rev"}
+			modes := allModes[:3]
 			if len(t) == 1 {
-				modes = []string{"seq"}
+				modes = allModes[:1]
+			} else if len(t) == 3 && level == 2 {
+				modes = allModes
 			}
 			for _, m := range modes {
 				if !thorough && len(t) == 3 && (life != "keep" || m == "inter-rev") {
@@ -586,14 +607,17 @@ func (e *env) runScenario(p *program, engine string, sc scenario) []*rtRun {
 			r.run(p)
 			r.finish(sc.Life)
 		}
-	case "inter", "inter-rev":
+	case "inter", "inter-rev", "inter-021", "inter-102", "inter-120", "inter-201":
 		for i, l := range sc.Tuple {
 			runs[i] = newRT(letterSettings(engine, l), cache)
 		}
-		for i := range runs {
+		for i := range runs { // order of compilation
 			j := i
-			if sc.Mode == "inter-rev" {
+			switch {
+			case sc.Mode == "inter-rev":
 				j = n - 1 - i
+			case sc.Mode != "inter":
+				j = int(sc.Mode[len("inter-")+i] - '0')
 			}
 			runs[j].compile(p)
 		}
@@ -637,7 +661,7 @@ func (e *env) ordersCase(tier, engine string, p *program, cache string, only int
 		e.noteBaseline(res, p, r.tr)
 		return b
 	}
-	scs := enumScenarios(cache, tier == "thorough")
+	scs := enumScenarios(cache, scenLevel(p, tier == "thorough"))
 	// failing[scenarioKey][letter] = key
 	failing := map[string]map[string]string{}
 	type frec struct {
@@ -778,6 +802,15 @@ func renderSet(m map[string]bool, all int) string {
 	return strings.Join(ks, "+")
 }
 
+// renderModes: "any" when sequential, interleaved and reverse-interleaved all fail (the additional
+// compile orders of the thorough tier exist for triples only and do not change the class).
+func renderModes(m map[string]bool) string {
+	if m["seq"] && m["inter"] && m["inter-rev"] {
+		return "any"
+	}
+	return renderSet(m, 1<<30)
+}
+
 // renderRelation renders a set of (victim, with) pairs: "among=A,B,C" when every member fails next to
 // every other member, "victim=A,B:with=C,D" for a full product, else the list of pairs.
 func renderRelation(rel map[[2]string]bool) string {
@@ -891,11 +924,11 @@ func (e *env) runCase(tier string, corpus []*program, c caseDesc, only int) *cas
 	return res
 }
 
-func caseSize(c caseDesc, thorough bool) int {
+func caseSize(c caseDesc, p *program, thorough bool) int {
 	if c.Kind == "lattice" {
 		return len(allPoints())
 	}
-	return len(enumScenarios(c.Cache, thorough))
+	return len(enumScenarios(c.Cache, scenLevel(p, thorough)))
 }
 
 // ---------------------------------------------------------------- main
@@ -1016,7 +1049,7 @@ func main() {
 	sort.Ints(crashed)
 	for _, ci := range crashed {
 		c := cases[ci]
-		n := caseSize(c, thorough)
+		n := caseSize(c, corpus[c.Prog], thorough)
 		found := 0
 		fw.Supervise(fw.SupOpts{N: n, Workers: workers, CaseTimeout: 10 * time.Minute, Mode: fmt.Sprintf("single:%d", ci), Env: childEnv},
 			func(j int, res string, crash *fw.Crash) {
@@ -1035,7 +1068,7 @@ func main() {
 					what = fmt.Sprintf("program %s, limit %d, cache=%s toggles=[%s]", corpus[c.Prog].Name, s.limit(), pt.Cache, s.toggles())
 					rp = latticeReplay{"lattice", run.Tier, c.Engine, c.Limit, corpus[c.Prog].Name, pt}
 				} else {
-					sc := enumScenarios(c.Cache, thorough)[j]
+					sc := enumScenarios(c.Cache, scenLevel(corpus[c.Prog], thorough))[j]
 					cls = fmt.Sprintf("order:tuple=%s:mode=%s:life=%s:cache=%s", strings.Join(sc.Tuple, ""), sc.Mode, sc.Life, sc.Cache)
 					what = fmt.Sprintf("program %s, scenario %+v", corpus[c.Prog].Name, sc)
 					rp = orderReplay{"order", run.Tier, c.Engine, corpus[c.Prog].Name, sc, -1}
@@ -1056,7 +1089,7 @@ func main() {
 		if c.Kind == "lattice" {
 			samples.Add(map[string]any{"kind": "lattice", "engine": c.Engine, "limit_pages": c.Limit, "program": corpus[c.Prog].Name, "points": 320})
 		} else {
-			samples.Add(map[string]any{"kind": "orders", "engine": c.Engine, "program": corpus[c.Prog].Name, "cache": c.Cache, "scenarios": caseSize(c, thorough)})
+			samples.Add(map[string]any{"kind": "orders", "engine": c.Engine, "program": corpus[c.Prog].Name, "cache": c.Cache, "scenarios": caseSize(c, corpus[c.Prog], thorough)})
 		}
 	}
 	sort.Slice(lviols, func(i, j int) bool {
@@ -1086,7 +1119,7 @@ func main() {
 	for _, k := range gks {
 		g := groups[k]
 		pfx := fmt.Sprintf("order:%s:%s", g.Engine, g.Key)
-		sfx := fmt.Sprintf("pos=%s:mode=%s:life=%s:cache=%s:%s", renderSet(g.Pos, 2), renderSet(g.Modes, 3), renderSet(g.Lives, 3), renderSet(g.Caches, 2), g.Tag)
+		sfx := fmt.Sprintf("pos=%s:mode=%s:life=%s:cache=%s:%s", renderSet(g.Pos, 2), renderModes(g.Modes), renderSet(g.Lives, 3), renderSet(g.Caches, 2), g.Tag)
 		b := buckets[pfx+"|"+sfx]
 		if b == nil {
 			b = &bucket{rel: map[[2]string]bool{}, rep: g, pfx: pfx, sfx: sfx}
@@ -1144,7 +1177,7 @@ func main() {
 			"semantic_bases":      []string{fmt.Sprintf("WithMemoryLimitPages(%d): all programs", smallLimit), "default limit (65536): programs with a memory"},
 			"order_settings":      map[string]string{"D": "default", "T": "WithCloseOnContextDone(true)", "L": "function listener", "N": "WithDebugInfoEnabled(false)", "M": "WithMemoryLimitPages(2)", "F": "WithCoreFeatures(V1)"},
 			"order_tuples":        len(tuples()),
-			"order_scenarios_per": map[string]int{"mem": len(enumScenarios("mem", thorough)), "dir": len(enumScenarios("dir", thorough))},
+			"order_scenarios_per_case": map[string]int{"quick": len(enumScenarios("mem", 0)), "thorough": len(enumScenarios("mem", 1)), "thorough_order_flagged_programs": len(enumScenarios("mem", 2))},
 			"engines":             []string{"compiler", "interpreter"},
 		},
 		Extra: map[string]any{
